@@ -322,7 +322,7 @@ static void x_cons(void * e, void * priv)
 {
     size_t slot = 0;
     int known = slot_of(e, &slot);
-    (void)priv;
+    h_priv_check(priv, 1);
     ev_xtor('C', slot, known);
     if (known) {
         put_val(e, cur_vec->elem.size, CTORV);
@@ -333,7 +333,7 @@ static void x_dest(void * e, void * priv)
 {
     size_t slot = 0;
     int known = slot_of(e, &slot);
-    (void)priv;
+    h_priv_check(priv, 1);
     ev_xtor('D', slot, known);
     if (known) {
         put_val(e, cur_vec->elem.size, DTORV);
@@ -505,7 +505,7 @@ static int sgn(int x) { return (x > 0) - (x < 0); }
 
 static int val_cmp(const void * a, const void * b, void * p)
 {
-    (void)p;
+    h_priv_check(p, 2);
     return (int)*(const unsigned char *)a - (int)*(const unsigned char *)b;
 }
 
@@ -536,7 +536,7 @@ static void op(int argc, char ** argv)
     } else if (!strcmp(o, "init") && argc == 4 && a >= 0 && a < 2) {
         int x = atoi(argv[3]);
         cstl_vector_init_complex(&vec[a], h_size(argv[2]),
-                                 (x & 1) ? x_cons : NULL, (x & 2) ? x_dest : NULL, NULL);
+                                 (x & 1) ? x_cons : NULL, (x & 2) ? x_dest : NULL, H_PRIV(1));
         outf("ok");
     } else if (!strcmp(o, "reserve") && argc == 3 && a >= 0 && a < 2) {
         cstl_vector_reserve(&vec[a], h_size(argv[2]));
@@ -594,7 +594,7 @@ static void op(int argc, char ** argv)
         cstl_vector_reverse(&vec[a]);
         outf("ok");
     } else if (!strcmp(o, "sort") && argc == 2 && a >= 0 && a < 2) {
-        cstl_vector_sort(&vec[a], val_cmp, NULL);
+        cstl_vector_sort(&vec[a], val_cmp, H_PRIV(2));
         outf("ok");
     /* ---------------------------------------------------- string */
 #define WIDE (a >= 4)
